@@ -5,7 +5,6 @@
    exported by a subinclude, or simply "must not change") or Dead (garbage / belongs to somebody else:
    nothing the running code can reach refers to it).  `vok v` is a LOCAL condition on one value:
      - a mutable list / dict reference points to a Free object,
-     - a frozen list reference into a Prot array has no spare capacity,
      - nothing points to a Dead object, no function value is a dead function.
    `Inv st` says that every value the running code can reach (live scopes, locals, the subinclude cache,
    the cells of every array / dict that is not Dead, the defaults of the live functions, the constants the
@@ -85,12 +84,12 @@ Proof.
 Qed.
 
 Section Invariant.
-Variables (ca cd : nat -> mode) (pf ls : nat -> bool) (cs : list value).
+Variables (ca cd : nat -> mode) (pf ls : nat -> bool) (cs : list value) (defs : list (str * prog)).
 
 Definition vokb (v : value) : bool :=
   match v with
   | VList sl => match ca (s_arr sl) with Free => true | _ => false end
-  | VFrozenList sl => match ca (s_arr sl) with Free => true | Prot => Nat.leb (s_cap sl) (s_len sl) | Dead => false end
+  | VFrozenList sl => match ca (s_arr sl) with Dead => false | _ => true end
   | VDict i => match cd i with Free => true | _ => false end
   | VFrozenDict i => match cd i with Dead => false | _ => true end
   | VFunc i => negb (pf i)
@@ -99,27 +98,12 @@ Definition vokb (v : value) : bool :=
 Definition vok (v : value) : Prop := vokb v = true.
 Definition env_ok (e : env) : Prop := Forall (fun kv => vok (snd kv)) e.
 
-(* ---- the programs covered: every constant they mention is vok, and the right operand of every + is
-   syntactically a scalar literal or a NON-EMPTY list literal applied directly (FROZEN + [] returns the
-   exported list's own array as a mutable list: the fifth refuting class) ---- *)
-Definition safe_addend (x : vexpr) : bool :=
-  match x with XInt _ | XStr _ | XTrue | XFalse | XNone | XList (_ :: _) => true | _ => false end.
-Definition is_add (o : binop) : bool := match o with Add => true | _ => false end.
-
-Fixpoint add_prec_ok (ops : list opitem) : bool :=
-  match ops with
-  | [] => true
-  | i0 :: rest =>
-      match i0, rest with
-      | OBin Add _, i1 :: _ => (aprec (KB Add) >=? aprec (ikey (of_opitem i1)))%Z
-      | _, _ => true
-      end && add_prec_ok rest
-  end.
-
+(* ---- the programs covered: every optimised.Constant they mention (XConst k, build_defs only) is vok.  A BUILD
+   file contains no XConst at all, so every package program is covered. ---- *)
 Fixpoint sok_e (e : expr) : bool :=
   match e with
   | Ex v ops iff =>
-      sok_v v && forallb sok_i ops && add_prec_ok ops &&
+      sok_v v && forallb sok_i ops &&
       match iff with None => true | Some (c, e2) => sok_e c && sok_e e2 end
   end
 with sok_v (x : vexpr) : bool :=
@@ -137,14 +121,14 @@ with sok_v (x : vexpr) : bool :=
   end
 with sok_i (i : opitem) : bool :=
   match i with
-  | OBin o v => sok_v v && (if is_add o then safe_addend v else true)
+  | OBin o v => sok_v v
   | OUn _ => true
   end.
 
 
 (* unfolding equations (cbn does not refold the mutual fixpoint) *)
 Lemma sok_e_Ex : forall v ops iff, sok_e (Ex v ops iff) =
-  sok_v v && forallb sok_i ops && add_prec_ok ops && match iff with None => true | Some (c, e2) => sok_e c && sok_e e2 end.
+  sok_v v && forallb sok_i ops && match iff with None => true | Some (c, e2) => sok_e c && sok_e e2 end.
 Proof. reflexivity. Qed.
 Lemma sok_v_list : forall es, sok_v (XList es) = forallb sok_e es.
 Proof. reflexivity. Qed.
@@ -163,10 +147,9 @@ Lemma sok_v_slice : forall b lo hi, sok_v (XSlice b lo hi) =
 Proof. reflexivity. Qed.
 Lemma sok_v_const : forall k, sok_v (XConst k) = vokb (nth k cs VNone).
 Proof. reflexivity. Qed.
-Lemma sok_i_bin : forall o v, sok_i (OBin o v) = sok_v v && (if is_add o then safe_addend v else true).
+Lemma sok_i_bin : forall o v, sok_i (OBin o v) = sok_v v.
 Proof. reflexivity. Qed.
 
-Definition addend_e (e : expr) : bool := match e with Ex x [] None => safe_addend x | _ => false end.
 Definition sok_args (args : list (option str * expr)) : bool := forallb (fun a => let '(_, e) := a in sok_e e) args.
 
 Lemma sok_v_call : forall n args, sok_v (XCall n args) = sok_args args.
@@ -175,9 +158,9 @@ Proof. reflexivity. Qed.
 Fixpoint sok_s (s0 : stmt) : bool :=
   match s0 with
   | SAssign _ e => sok_e e
-  | SAug _ e => sok_e e && addend_e e
+  | SAug _ e => sok_e e
   | SIdxAssign _ i e => sok_e i && sok_e e
-  | SIdxAug _ i e => sok_e i && sok_e e && addend_e e
+  | SIdxAug _ i e => sok_e i && sok_e e
   | SUnpack _ e => sok_e e
   | SIf c body elifs els =>
       sok_e c && forallb sok_s body && forallb (fun cb => let '(c1, b1) := cb in sok_e c1 && forallb sok_s b1) elifs && forallb sok_s els
@@ -217,7 +200,9 @@ Record Inv (st : state) : Prop := mkInv {
   i_loc : Forall env_ok (locals st);
   i_sub : Forall (fun le => env_ok (snd le)) (subcache st);
   i_fn : forall i, pf i = false -> i < length (funcs st) -> fokb (nth i (funcs st) dflt_func) = true;
-  i_cs : consts st = cs
+  i_cs : consts st = cs;
+  (* the packages subinclude only files that are already in the cache: Subinclude never loads a file *)
+  i_defs : forall label, assoc_get label (subcache st) = None -> find_def defs label = None
 }.
 
 Record frame (st st' : state) : Prop := mkFrame {
@@ -453,21 +438,14 @@ Proof.
     + rewrite length_list_set. lia.
 Qed.
 
-(* l + items2: the left operand is vok, and when its array is protected the right operand is not empty *)
+(* l + items2 (since /repo 7aeabfa): always a new array *)
 Lemma list_add_good : forall l items2 st, Inv st -> vok (VFrozenList l) -> Forall vok items2 ->
-  (ca (s_arr l) = Prot -> items2 <> []) ->
   let '(r, st') := list_add Asp l items2 st in Inv st' /\ frame st st' /\ vok (VList r).
 Proof.
-  intros l items2 st HI Hl Hit Hne. unfold list_add.
-  destruct (Nat.leb (s_len l + length items2) (s_cap l)) eqn:Hfit.
-  - assert (Hfree : ca (s_arr l) = Free).
-    { unfold vok, vokb in Hl. destruct (ca (s_arr l)) eqn:E; auto; [|discriminate].
-      apply Nat.leb_le in Hfit, Hl. destruct items2; [now elim Hne|cbn in Hfit; lia]. }
-    destruct (arr_write_good (s_arr l) (s_off l + s_len l) items2 st HI Hfree Hit) as [I1 F1].
-    split; [auto|]. split; [auto|]. unfold vok, vokb. cbn [s_arr]. now rewrite Hfree.
-  - pose proof (alloc_list_good (list_items Asp st l ++ items2) (s_len l + length items2) st HI) as H.
-    destruct (alloc_list (list_items Asp st l ++ items2) (s_len l + length items2) st) as [r st'].
-    destruct H as (I1 & F1 & V1 & _); auto. apply Forall_app. split; auto. apply items_ok; auto.
+  intros l items2 st HI Hl Hit. unfold list_add.
+  pose proof (alloc_list_good (list_items Asp st l ++ items2) (s_len l + length items2) st HI) as H.
+  destruct (alloc_list (list_items Asp st l ++ items2) (s_len l + length items2) st) as [r st'].
+  destruct H as (I1 & F1 & V1 & _); auto. apply Forall_app. split; auto. apply items_ok; auto.
 Qed.
 
 End Invariant.
